@@ -66,3 +66,12 @@ theorem Env.get_set_other (env : Env) (x y : Bytes) (v : GoVal) (h : y ≠ x) : 
     · have h1 : (kv.1 != x) = true := by simp [hk]
       simp only [h1, if_true, List.find?_cons]
       cases kv.1 == y <;> simp [ih]
+
+theorem Prog.bind_assoc {α β γ} (p : Prog α) (f : α → Prog β) (g : β → Prog γ) :
+    (p.bind f).bind g = p.bind (fun a => (f a).bind g) := by
+  induction p with
+  | ret a => rfl
+  | fail e => rfl
+  | panic w => rfl
+  | unmodelled w => rfl
+  | call b k ih => simp only [Prog.bind]; congr 1; funext r; exact ih r
